@@ -10,6 +10,7 @@ import (
 	"fmt"
 	"os"
 	"path/filepath"
+	"runtime/debug"
 	"sort"
 	"strconv"
 	"strings"
@@ -248,6 +249,13 @@ func Try(fn func()) (panicked bool, msg string) {
 		if r := recover(); r != nil {
 			panicked = true
 			msg = strings.ReplaceAll(fmt.Sprint(r), " ", "_")
+			// keep the stack next to the trace: the replay file quotes it
+			if out := os.Getenv("VH_OUT"); out != "" {
+				if f, err := os.OpenFile(out+".panics", os.O_CREATE|os.O_APPEND|os.O_WRONLY, 0o644); err == nil {
+					fmt.Fprintf(f, "panic: %v\n%s\n", r, debug.Stack())
+					f.Close()
+				}
+			}
 			if len(msg) > 120 {
 				msg = msg[:120]
 			}
